@@ -60,6 +60,8 @@ type schedSource struct {
 	sched []int
 	calls int
 	rfail int
+	chunk int // when > 0 and the schedule is exhausted: constant chunk size
+	offAtFail int // bytes delivered before the failing call (-1: the call did not happen)
 }
 
 func (s *schedSource) Read(b []byte) (int, error) {
@@ -69,7 +71,11 @@ func (s *schedSource) Read(b []byte) (int, error) {
 		k = s.sched[0]
 		s.sched = s.sched[1:]
 	}
+	if k == 0 && s.chunk > 0 {
+		k = s.chunk
+	}
 	if s.rfail > 0 && s.calls == s.rfail {
+		s.offAtFail = s.off
 		return 0, errors.New("source failure (injected)")
 	}
 	if s.off >= len(s.data) {
@@ -481,6 +487,19 @@ func runBS(c *Ctx, mode string) {
 				}
 			} else {
 				cs.rfail = r.Range(1, 8)
+				if r.Bool() {
+					// the source also delivers short reads: the failing call can be a continuation read of the refill loop
+					small := []int{1, 2, 3, 5, 7, 9, 13, 31}
+					k := small[r.Intn(len(small))]
+					for j := 0; j < 200; j++ {
+						if r.Intn(3) == 0 {
+							cs.sched = append(cs.sched, small[r.Intn(len(small))])
+						} else {
+							cs.sched = append(cs.sched, k)
+						}
+					}
+					cs.rfail = r.Range(1, 40)
+				}
 			}
 			if r.Bool() {
 				// retry the close after a failure
